@@ -232,6 +232,9 @@ func infeasibleEdge(b *ssa.BasicBlock, succ int) bool {
 		return false
 	}
 	edge := normCond(ifi, ifi.Cond, succ == 0)
+	if cv, isConst := ConstBool(edge.V); isConst {
+		return cv != edge.Taken // `if false` / `if true`: only one successor can be taken
+	}
 	for _, k := range CondsAt(b) {
 		if k.V == edge.V && k.Taken != edge.Taken {
 			return true
@@ -313,4 +316,12 @@ func junctions(v ssa.Value, or bool, depth int) []ssa.Value {
 		out = append(out, junctions(e, or, depth+1)...)
 	}
 	return out
+}
+
+// Reachable reports whether the instruction can be reached from the function entry along
+// feasible edges (constant conditions and contradicted branch conditions pruned).
+func Reachable(in ssa.Instruction) bool {
+	q := PathQ{Fn: in.Parent(), Target: func(x ssa.Instruction, _ *ssa.BasicBlock) bool { return x == in }}
+	esc, _ := q.Escape()
+	return esc != nil
 }
